@@ -56,6 +56,13 @@ class Spheroid(CenteredScatterer):
 
         self.n = n
         self.r = r
+        for radius in r:
+            try:
+                if np.any(np.array(radius) < 0):
+                    raise InvalidScatterer(self, "radius is negative")
+            except TypeError:
+                # radii given as priors are not checked (as in Sphere)
+                pass
         self.rotation = rotation
         self.center = center
 
